@@ -6,6 +6,7 @@ import c11lib as L
 NAME = "aquarium"
 MODULE = "cspuz.puzzle.aquarium"
 FUNC = "solve_aquarium"
+TIER1 = ("Aquarium", "solve_aquarium_model")
 
 
 def call(mod, pb):
@@ -32,8 +33,10 @@ def _clues(rng, h, w, k):
 
 def families(tier, rng):
     th = tier == "thorough"
-    # the U-shaped tank (cells of one tank in a row that are not contiguous)
-    yield {"h": 2, "w": 3, "blocks": [[[0, 0], [0, 2], [1, 0], [1, 1], [1, 2]], [[0, 1]]], "rows": [-1, -1], "cols": [-1, -1, -1]}
+    # tanks whose cells in one row are not contiguous
+    for (h, w, blocks) in _NONCONVEX:
+        for (rows, cols) in _clues(rng, h, w, 3):
+            yield {"h": h, "w": w, "blocks": blocks, "rows": rows, "cols": cols}
     for (h, w) in [(1, 1), (1, 2), (2, 1), (1, 3), (3, 1), (2, 2), (2, 3), (3, 2)]:
         parts = list(L.region_partitions(h, w))
         if h * w <= 2:
@@ -52,8 +55,7 @@ def families(tier, rng):
 
 
 def _row_convex(pb):
-    """every region's cells in one row are contiguous and the rows it occupies hang together
-    through vertically adjacent cells (then the local and the global water rules coincide)"""
+    """every region's cells in one row are contiguous"""
     for b in pb["blocks"]:
         cells = {tuple(c) for c in b}
         for (y1, x1) in cells:
@@ -64,6 +66,8 @@ def _row_convex(pb):
 
 
 def classify(pb, what):
+    """stable violation keys (none of them is a known finding any more: the IndexError for h > w was fixed by
+    acb93d7, the water level across non-contiguous row cells by 97459c5)"""
     if "raises" in what:
         return "aquarium:raises:h>w" if pb["h"] > pb["w"] else None
     if not _row_convex(pb):
@@ -71,10 +75,45 @@ def classify(pb, what):
     return None
 
 
+# tanks whose cells in one row are not contiguous: U (arms up), n (arms down), a comb on 2x5, an S-like tank on 3x3
+_NONCONVEX = [
+    (2, 3, [[[0, 0], [0, 2], [1, 0], [1, 1], [1, 2]], [[0, 1]]]),
+    (2, 3, [[[0, 0], [0, 1], [0, 2], [1, 0], [1, 2]], [[1, 1]]]),
+    (3, 3, [[[0, 0], [0, 2], [1, 0], [1, 2], [2, 0], [2, 1], [2, 2]], [[0, 1], [1, 1]]]),
+    (3, 3, [[[0, 0], [0, 1], [0, 2], [1, 0], [1, 2], [2, 0], [2, 2]], [[1, 1], [2, 1]]]),
+    (2, 5, [[[0, 0], [0, 2], [0, 4], [1, 0], [1, 1], [1, 2], [1, 3], [1, 4]], [[0, 1]], [[0, 3]]]),
+]
+
+
 def tier2(tier, rng):
     th = tier == "thorough"
+    for (h, w, blocks) in _NONCONVEX[:2] + (_NONCONVEX[2:4] if th else []):
+        for (rows, cols) in _clues(rng, h, w, 1):
+            yield {"h": h, "w": w, "blocks": blocks, "rows": rows, "cols": cols}
     for (h, w) in [(1, 1), (1, 2), (2, 2), (2, 3)]:
         parts = list(L.region_partitions(h, w))
         for blocks in (parts if th else L.sample(rng, parts, 4)):
             for (rows, cols) in _clues(rng, h, w, 2 if th else 1):
                 yield {"h": h, "w": w, "blocks": blocks, "rows": rows, "cols": cols}
+
+
+def tier1_problems(tier, rng):
+    """program-capture tie: every partition of the tiniest boards, the non-convex tanks, random partitions of
+    larger and non-square boards; clue vectors with -1 / 0 / maximal entries; a few clue lists that are too short"""
+    from c11.norinori import _random_parts
+    th = tier == "thorough"
+    for (h, w, blocks) in _NONCONVEX:
+        for (rows, cols) in _clues(rng, h, w, 2):
+            yield {"h": h, "w": w, "blocks": blocks, "rows": rows, "cols": cols}
+    for (h, w) in [(1, 1), (1, 2), (2, 1), (1, 3), (3, 1), (2, 2), (2, 3), (3, 2)]:
+        parts = list(L.region_partitions(h, w))
+        for blocks in (parts if th else L.sample(rng, parts, 12)):
+            for (rows, cols) in _clues(rng, h, w, 2):
+                yield {"h": h, "w": w, "blocks": blocks, "rows": rows, "cols": cols}
+    for (h, w) in [(3, 3), (2, 5), (5, 2), (4, 4), (3, 6), (6, 5), (1, 7), (7, 1), (8, 8)]:
+        for blocks in _random_parts(rng, h, w, 12 if th else 3):
+            for (rows, cols) in _clues(rng, h, w, 2):
+                yield {"h": h, "w": w, "blocks": blocks, "rows": rows, "cols": cols}
+    # malformed: a clue list shorter than the board (IndexError in the clue loops)
+    yield {"h": 2, "w": 2, "blocks": [[[0, 0], [0, 1], [1, 0], [1, 1]]], "rows": [1], "cols": [-1, -1]}
+    yield {"h": 2, "w": 3, "blocks": [[[0, 0], [0, 1], [0, 2], [1, 0], [1, 1], [1, 2]]], "rows": [-1, 2], "cols": [0, 1]}
